@@ -28,12 +28,20 @@ def genCfg (mask : Nat) (isType : Nat → List Ch → Bool) : Cfg :=
 /-- `NEW | GUIDING`: the syntax of every text block of a model parsed with `newxta = true` -/
 def maskNew : Nat := Gen.bitNEW ||| Gen.bitGUIDING
 
+/-- `OLD | GUIDING`: the syntax of every text block of a model parsed with `newxta = false` (UPPAAL 3.x `.ta` files, XML read with
+    `newxta = false`) -/
+def maskOld : Nat := Gen.bitOLD ||| Gen.bitGUIDING
+
 /-! ## 0. the generated tables satisfy what the general theorems assume -/
 
 theorem C09_rules_wf : RulesWF Gen.rules = true := by decide
 theorem C09_rules_ident_wf : IdentWF Gen.rules = true := by decide
 theorem C09_maskNew_nonProperty (isType) : NonProperty (genCfg maskNew isType) := by
   show ((maskNew &&& Gen.bitPROPERTY != 0) = false)
+  decide
+/-- the trivia and renaming theorems (stated for every non-PROPERTY configuration) apply to the 3.x syntax as well -/
+theorem C09_maskOld_nonProperty (isType) : NonProperty (genCfg maskOld isType) := by
+  show ((maskOld &&& Gen.bitPROPERTY != 0) = false)
   decide
 
 /-! ## 1. trivia -/
@@ -290,11 +298,32 @@ theorem C09_alias_lex :
     lex cfg [111, 114] = [.lit Gen.T_KW_OR] ∧ lex cfg [124, 124] = [.lit Gen.T_BOOL_OR] ∧
     lex cfg [110, 111, 116] = [.lit Gen.T_KW_NOT] ∧ lex cfg [33] = [.lit Gen.T_EXCLAM] := by decide +kernel
 
+/-- **the keyword operators are operators in every syntax**: in the 3.x syntax (`newxta = false`) and in the property syntax the
+    words `and`, `or`, `not` lex to the same tokens as in the 4.x syntax (and the symbolic spellings to theirs), so that
+    `C09_alias_and/or/not`, `C09_alias_contexts` and `C09_alias_trace` -- statements about tokens -- speak about the texts of those
+    syntaxes too.  (The keyword table carries one syntax mask per word; this is the statement that none of the three lacks a bit.) -/
+theorem C09_alias_lex_old :
+    let cfg := genCfg maskOld (fun _ _ => false)
+    lex cfg [97, 110, 100] = [.lit Gen.T_KW_AND] ∧ lex cfg [38, 38] = [.lit Gen.T_BOOL_AND] ∧
+    lex cfg [111, 114] = [.lit Gen.T_KW_OR] ∧ lex cfg [124, 124] = [.lit Gen.T_BOOL_OR] ∧
+    lex cfg [110, 111, 116] = [.lit Gen.T_KW_NOT] ∧ lex cfg [33] = [.lit Gen.T_EXCLAM] := by decide +kernel
+theorem C09_alias_lex_property :
+    let cfg := genCfg Gen.bitPROPERTY (fun _ _ => false)
+    lex cfg [97, 110, 100] = [.lit Gen.T_KW_AND] ∧ lex cfg [38, 38] = [.lit Gen.T_BOOL_AND] ∧
+    lex cfg [111, 114] = [.lit Gen.T_KW_OR] ∧ lex cfg [124, 124] = [.lit Gen.T_BOOL_OR] ∧
+    lex cfg [110, 111, 116] = [.lit Gen.T_KW_NOT] ∧ lex cfg [33] = [.lit Gen.T_EXCLAM] := by decide +kernel
+
 /-- replace the alias tokens by their symbolic twins -/
 def aliasSubst : Tok → Tok
   | .lit t => if t = Gen.T_KW_AND then .lit Gen.T_BOOL_AND else if t = Gen.T_KW_OR then .lit Gen.T_BOOL_OR
               else if t = Gen.T_KW_NOT then .lit Gen.T_EXCLAM else .lit t
   | t => t
+
+/-- the same non-vacuity example in the 3.x syntax: `a and not b or c` lexes to the tokens of `a && !b || c` up to `aliasSubst` -/
+example :
+    let cfg := genCfg maskOld (fun _ _ => false)
+    (lex cfg [97, 32, 97, 110, 100, 32, 110, 111, 116, 32, 98, 32, 111, 114, 32, 99]).map aliasSubst =
+      lex cfg [97, 32, 38, 38, 32, 33, 98, 32, 124, 124, 32, 99] := by decide +kernel
 
 /-- **Aliases.**  The operator parser sees a token only through its `Info`; a substitution of tokens that preserves
     `Info` therefore preserves the callback trace — for ANY token stream (complete expression or not). -/
